@@ -24,9 +24,9 @@ def run_demo(meta, race):
     return rc, out
 def main():
     if not os.path.isdir(WT):
-        subprocess.check_call(["git", "-C", "/repo", "worktree", "add", "-q", "--detach", WT, "ee37739"])
+        subprocess.check_call(["git", "-C", "/repo", "worktree", "add", "-q", "--detach", WT, os.environ.get("SEED_BASE", "ee37739")])
     results = {}
-    for d in sorted(glob.glob("/tmp/seed/C*/[ab]")):
+    for d in sorted(glob.glob(os.environ.get("SEED_GLOB", "/tmp/seed/C*/[ab]"))):
         pid, ab = d.split("/")[-2], d.split("/")[-1]
         name = pid + ab
         if len(sys.argv) > 1 and name not in sys.argv[1:]:
@@ -64,7 +64,7 @@ def main():
             for f in files:
                 shutil.copy(f, dest)
             m = dict(meta)
-            m.update({"breaks": pid, "base_commit": "ee37739", "confirmed_by": "tools/seedconfirm.py: patch applied to a scratch worktree of /repo; "
+            m.update({"breaks": pid, "base_commit": os.environ.get("SEED_BASE", "ee37739"), "confirmed_by": "tools/seedconfirm.py: patch applied to a scratch worktree of /repo; "
                       "`go test -count=1 ./...` (existing suite) passes with the change; the demonstration test passes on the unchanged tree and fails with the change" + (" (run with -race)" if race else "")})
             json.dump(m, open(dest + "/meta.json", "w"), indent=1)
         print(name, r["status"], {k: v for k, v in r.items() if k not in ("out0", "out1", "status")}, flush=True)
